@@ -9,6 +9,7 @@ package scen
 import (
 	"encoding/json"
 	"fmt"
+	"io"
 	"net/http"
 	"net/http/httptest"
 	"net/url"
@@ -32,18 +33,19 @@ const (
 	FEForm
 	FEQuery
 	FEEnv
+	FEHTTPJSONStream // zhttp JSON body of unknown length (chunked upload: ContentLength == -1)
 	feCount
 )
 
 func (fe FrontEnd) String() string {
-	return [...]string{"gomap", "zjson", "zhttp-json", "zhttp-form", "zhttp-query", "zenv"}[fe]
+	return [...]string{"gomap", "zjson", "zhttp-json", "zhttp-form", "zhttp-query", "zenv", "zhttp-json-stream"}[fe]
 }
 
 func (fe FrontEnd) SourceTag() string {
-	return [...]string{"", "json", "json", "form", "query", "env"}[fe]
+	return [...]string{"", "json", "json", "form", "query", "env", "json"}[fe]
 }
 
-func (fe FrontEnd) Flat() bool { return fe >= FEForm }
+func (fe FrontEnd) Flat() bool { return fe >= FEForm && fe <= FEEnv }
 
 type Rendered struct {
 	MkData      func() any // fresh input for one Parse call
@@ -156,7 +158,7 @@ func Render(fe FrontEnd, root *Node, input any) *Rendered {
 		r.MkData = func() any { return input }
 		r.Src = input
 		r.Desc = fmt.Sprintf("Go map %#v", input)
-	case FEJSON, FEHTTPJSON:
+	case FEJSON, FEHTTPJSON, FEHTTPJSONStream:
 		if !isMap {
 			r.Expressible, r.Why = false, "top level is not a record"
 			return r
@@ -175,6 +177,12 @@ func Render(fe FrontEnd, root *Node, input any) *Rendered {
 		r.Desc = fmt.Sprintf("%s %s", fe, text)
 		if fe == FEJSON {
 			r.MkData = func() any { return zjson.Decode(strings.NewReader(string(text))) }
+		} else if fe == FEHTTPJSONStream {
+			r.MkData = func() any {
+				req := httptest.NewRequest(http.MethodPost, "/", io.NopCloser(strings.NewReader(string(text))))
+				req.Header.Set("Content-Type", "application/json; charset=utf-8")
+				return zhttp.Request(req)
+			}
 		} else {
 			r.MkData = func() any {
 				req := httptest.NewRequest(http.MethodPost, "/", strings.NewReader(string(text)))
@@ -248,7 +256,7 @@ func Render(fe FrontEnd, root *Node, input any) *Rendered {
 
 type tagCfg struct {
 	field string
-	cfg   int // 0 none, 1 zog, 2 source, 3 both, 4 source tag with [] suffix (lists in form/query)
+	cfg   int // 0 none, 1 zog, 2 source, 3 both, 4 source tag with [] suffix (lists in form/query), 5 a foreign library's tag whose key ends in the source tag name, 6 zog tag whose value contains a comma
 }
 
 func tagText(fe FrontEnd, key string, cfg int) string {
@@ -270,6 +278,11 @@ func tagText(fe FrontEnd, key string, cfg int) string {
 		if src != "" {
 			parts = append(parts, fmt.Sprintf(`%s:"%s_%s[]"`, src, src, key))
 		}
+	case 5:
+		// e.g. conform:"trim", protojson:"msgId", dotenv:"X": none of these is the source tag or the zog tag
+		parts = append(parts, fmt.Sprintf(`x%s:"foreign_%s" proto%s:"other_%s" xzog:"foreignzog_%s"`, src, key, src, key, key))
+	case 6:
+		parts = append(parts, fmt.Sprintf(`zog:"z_%s,omitempty"`, key))
 	}
 	return strings.Join(parts, " ")
 }
@@ -323,11 +336,11 @@ func tagVariants(fields []string, k int, withBracket bool) []map[string]int {
 			return
 		}
 		for i := start; i < len(fields); i++ {
-			max := 3
+			cfgs := []int{1, 2, 3, 5, 6}
 			if withBracket && fields[i] == "l" {
-				max = 4
+				cfgs = append(cfgs, 4)
 			}
-			for c := 1; c <= max; c++ {
+			for _, c := range cfgs {
 				cur[fields[i]] = c
 				rec(i+1, cur)
 				delete(cur, fields[i])
